@@ -52,6 +52,22 @@ func (p *Program) mkFact(cond ssa.Value, pol bool) Fact {
 			pol = !pol
 			continue
 		}
+		// `x == false`, `x != true`, `true == x`, ... are folded into the polarity of x
+		if b, ok := cond.(*ssa.BinOp); ok && (b.Op == token.EQL || b.Op == token.NEQ) {
+			x, c := b.X, b.Y
+			cv, isC := constBool(c)
+			if !isC {
+				x, c = b.Y, b.X
+				cv, isC = constBool(c)
+			}
+			if isC {
+				if (b.Op == token.EQL) != cv {
+					pol = !pol
+				}
+				cond = x
+				continue
+			}
+		}
 		break
 	}
 	k := p.key(cond)
